@@ -233,7 +233,7 @@ def variants():
 def _variants():
     from ..selftest import V, insert_stmt, reformat_only, rename_local, replace_expr, replace_stmt
 
-    BS, MP = "permuta/bisc/bisc_subfunctions.py", "permuta/patterns/meshpatt.py"
+    BS, MP, BI = "permuta/bisc/bisc_subfunctions.py", "permuta/patterns/meshpatt.py", "permuta/bisc/bisc.py"
     return [
         V("bisc-test-nonstrict", replace_expr(BS, "perm_contains_cl_patt_many_shadings", "candidate_elt < element", "candidate_elt <= element"), "fire", "C17-K1"),
         V("bisc-test-above", replace_expr(BS, "mesh_contains_cl_patt_many_shadings", "candidate_elt < element", "candidate_elt > element"), "fire", "C17-K1"),
@@ -248,6 +248,26 @@ def _variants():
         V("bisc-predicate-range-n", replace_expr("permuta/bisc/bisc.py", "bisc", "range(n + 1)", "range(1, n + 1)"), "fire", "C17-N1"),
         V("bisc-list-skips-empty", replace_stmt("permuta/bisc/bisc.py", "bisc", "D[len(perm)].append(perm)", "if len(perm) > 0:\n    D[len(perm)].append(perm)"), "fire", "C17-N1"),
         V("bisc-predicate-negated", replace_expr("permuta/bisc/bisc.py", "bisc", "A(perm)", "not A(perm)"), "fire", "C17-N1"),
+        # A1 / A2 / U1
+        V("auto-validates-other-variable", replace_expr(BI, "auto_bisc", "patterns_suffice_for_bad(sg, L, B, stop_on_failure=True)", "patterns_suffice_for_bad(SG, L, B, stop_on_failure=True)", which=1), "fire", "C17-A1"),
+        V("auto-skips-good-check", replace_stmt(BI, "auto_bisc", "val, containing_perms = patterns_suffice_for_good(sg, L, A, stop_on_failure=True)", "val = True"), "fire", "C17-A1"),
+        V("auto-bound-7", replace_stmt(BI, "auto_bisc", "L = 8", "L = 7"), "fire", "C17-A1"),
+        V("auto-bound-lowered", replace_stmt(BI, "auto_bisc", "if L < n + 1: ...", "L = n + 1"), "fire", "C17-A1"),
+        V("auto-good-against-bad-table", replace_expr(BI, "auto_bisc", "patterns_suffice_for_good(sg, L, A, stop_on_failure=True)", "patterns_suffice_for_good(sg, L, B, stop_on_failure=True)"), "fire", "C17-A1"),
+        V("auto-returns-learned-set", replace_stmt(BI, "auto_bisc", "return sg", "return SG"), "fire", "C17-A1"),
+        V("auto-ignores-bad-verdict", replace_stmt(BI, "auto_bisc", "if not val:\n    print('A bad basis was chosen.')\n    print('Increasing perm length to {}'.format(n + 1))\n    n += 1\n    continue", "if not val:\n    print('A bad basis was chosen.')"), "fire", "C17-A1"),
+        V("sanity-bad-range-L", replace_expr(BS, "patterns_suffice_for_bad", "range(L + 1)", "range(L)"), "fire", "C17-A2"),
+        V("sanity-good-from-1", replace_expr(BS, "patterns_suffice_for_good", "range(L + 1)", "range(1, L + 1)"), "fire", "C17-A2"),
+        V("sanity-bad-polarity", replace_expr(BS, "patterns_suffice_for_bad", "not perm_contains_cl_patts_many_shadings(b, SG)", "perm_contains_cl_patts_many_shadings(b, SG)"), "fire", "C17-A2"),
+        V("sanity-good-partial-level", replace_expr(BS, "patterns_suffice_for_good", "A[n]", "A[n][1:]", which=1), "fire-or-undecided", "C17-A2"),
+        V("cleanup-range-exclusive", replace_expr(BS, "clean_up", "range(perm_len_min, perm_len_max + 1)", "range(perm_len_min, perm_len_max)"), "fire", "C17-U1"),
+        V("cleanup-range-starts-late", replace_expr(BS, "clean_up", "range(perm_len_min, perm_len_max + 1)", "range(perm_len_min + 1, perm_len_max + 1)"), "fire", "C17-U1"),
+        V("cleanup-avoid-table-swapped", replace_expr(BS, "clean_up", "perm.avoids(MeshPatt(mpat[0], mpat[1]))", "perm.contains(MeshPatt(mpat[0], mpat[1]))"), "fire", "C17-U1"),
+        V("cleanup-monitor-kept", replace_stmt(BS, "clean_up", "monitor.remove(mon)", "pass"), "fire", "C17-U1"),
+        V("cleanup-wrapper-bound", replace_expr(BS, "run_clean_up", "clean_up(SG, B, min(SG.keys()) + 1, bm, min(SG.keys()), M, report, detailed_report, limit_monitors)", "clean_up(SG, B, min(SG.keys()) + 1, bm - 1, min(SG.keys()), M, report, detailed_report, limit_monitors)"), "fire", "C17-U1"),
+        V("cleanup-range-equivalent", replace_expr(BS, "clean_up", "range(perm_len_min, perm_len_max + 1)", "range(perm_len_min, 1 + perm_len_max)"), "silent"),
+        V("auto-rename-sg", rename_local(BI, "auto_bisc", "sg", "description"), "silent"),
+        V("auto-rename-val", rename_local(BI, "auto_bisc", "val", "ok"), "silent"),
         # silent
         V("reformat-bisc-sub", reformat_only(BS), "silent"),
         V("bisc-swap-sides", replace_expr(BS, "perm_contains_cl_patt_many_shadings", "candidate_elt < element", "element > candidate_elt"), "silent"),
@@ -338,3 +358,458 @@ def run(ctx: Ctx) -> None:  # noqa: F811
 
 FLOORS["C17-N1"] = 4
 EXPLANATION = EXPLANATION.replace("Decided – one clause only,", "Decided – two clauses: the three input forms are normalised to the same {length: [permutations]} dictionary before mining (N1); and,")
+
+
+# ------------------------------------------------------------------ linear expressions
+
+
+def lin(node: ast.AST) -> Optional[Dict[str, int]]:
+    """``a + 1 - b`` -> {'a': 1, 'b': -1, '': 1}; None if not affine in plain names."""
+    if isinstance(node, ast.Constant) and isinstance(node.value, int) and not isinstance(node.value, bool):
+        return {"": node.value}
+    if isinstance(node, ast.Name):
+        return {node.id: 1}
+    if isinstance(node, ast.UnaryOp) and isinstance(node.op, ast.USub):
+        a = lin(node.operand)
+        return None if a is None else {k: -v for k, v in a.items()}
+    if isinstance(node, ast.BinOp) and isinstance(node.op, (ast.Add, ast.Sub)):
+        a, b = lin(node.left), lin(node.right)
+        if a is None or b is None:
+            return None
+        out = dict(a)
+        for k, v in b.items():
+            out[k] = out.get(k, 0) + (v if isinstance(node.op, ast.Add) else -v)
+        return {k: v for k, v in out.items() if v != 0}
+    return None
+
+
+def lin_diff(a: ast.AST, b: Dict[str, int]) -> Optional[int]:
+    """a - b as an integer constant, or None if it is not a constant."""
+    la = lin(a)
+    if la is None:
+        return None
+    out = dict(la)
+    for k, v in b.items():
+        out[k] = out.get(k, 0) - v
+    out = {k: v for k, v in out.items() if v != 0}
+    if not out:
+        return 0
+    if set(out) == {""}:
+        return out[""]
+    return None
+
+
+# ------------------------------------------------------------------ A2: the two sanity checks are bounded universal searches
+
+
+def rule_a2(ctx: Ctx) -> None:
+    mod = ctx.repo.module("permuta.bisc.bisc_subfunctions")
+    for fname, negated, what in (("patterns_suffice_for_bad", True, "every bad permutation of length <= L contains a pattern"),
+                                 ("patterns_suffice_for_good", False, "no good permutation of length <= L contains a pattern")):
+        f = mod.functions.get(fname)
+        if f is None:
+            raise AnalysisError(f"{fname} vanished")
+        ctx.run(check_sanity, ctx, f, negated, what)
+
+
+def check_sanity(ctx: Ctx, f: FuncInfo, negated: bool, what: str) -> None:
+    if len(f.params) < 3:
+        raise AnalysisError(f"{f.where}: signature not recognised")
+    sg, bound, table = f.params[0], f.params[1], f.params[2]
+    outer = [st for st in f.body if isinstance(st, ast.For)]
+    if len(outer) != 1:
+        raise AnalysisError(f"{f.where}: expected one loop over the lengths")
+    lp = outer[0]
+    it = lp.iter
+    if not (isinstance(it, ast.Call) and call_name(it) == ("range",) and 1 <= len(it.args) <= 2 and isinstance(lp.target, ast.Name)):
+        raise AnalysisError(f"{f.where}: length loop is not a range")
+    start = it.args[0] if len(it.args) == 2 else ast.Constant(value=0)
+    stop = it.args[-1]
+    d0, d1 = lin_diff(start, {"": 0}), lin_diff(stop, {bound: 1, "": 1})
+    if d0 is None or d1 is None:
+        raise AnalysisError(f"{f.where}: bounds of `{unparse(it)}` are not affine in {bound}")
+    if d0 > 0 or d1 < 0:
+        ctx.violation("C17-A2", f, lp, f"the sanity check runs over `{unparse(it)}`; it must cover every length 0..{bound} ({what})")
+        return
+    n = lp.target.id
+    # every `return True` comes after the loop
+    for node in walk_no_nested(f.node):
+        if isinstance(node, ast.Return) and node.value is not None:
+            first = node.value.elts[0] if isinstance(node.value, ast.Tuple) and node.value.elts else node.value
+            if isinstance(first, ast.Constant) and first.value is True:
+                if node not in f.body or f.body.index(node) < f.body.index(lp):
+                    ctx.violation("C17-A2", f, node, "the sanity check reports success before all lengths were examined")
+                    return
+            elif not (isinstance(first, ast.Constant) and first.value is False):
+                raise AnalysisError(f"{f.where}: verdict `{unparse(node.value)}` is not a literal")
+    if not (f.body and isinstance(f.body[-1], ast.Return)):
+        raise AnalysisError(f"{f.where}: no final verdict")
+    # inner loop over the whole level
+    inner = [st for st in lp.body if isinstance(st, ast.For)]
+    if len(inner) != 1 or unparse(inner[0].iter) != f"{table}[{n}]" or not isinstance(inner[0].target, ast.Name):
+        if len(inner) == 1 and isinstance(inner[0].iter, ast.Subscript) and unparse(inner[0].iter.value) == f"{table}[{n}]":
+            ctx.violation("C17-A2", f, inner[0], f"only part of level {n} is examined (`{unparse(inner[0].iter)}`)")
+            return
+        raise AnalysisError(f"{f.where}: loop over {table}[{n}] not recognised")
+    e = inner[0].target.id
+    tests = [st for st in inner[0].body if isinstance(st, ast.If)]
+    if len(tests) != 1 or len(inner[0].body) != 1:
+        raise AnalysisError(f"{f.where}: per-permutation test not recognised")
+    t = tests[0].test
+    neg = False
+    if isinstance(t, ast.UnaryOp) and isinstance(t.op, ast.Not):
+        neg, t = True, t.operand
+    if not (isinstance(t, ast.Call) and call_name(t) == ("perm_contains_cl_patts_many_shadings",) and [unparse(a) for a in t.args] == [e, sg]):
+        raise AnalysisError(f"{f.where}: failure test `{unparse(tests[0].test)}` not recognised")
+    if neg != negated:
+        ctx.violation("C17-A2", f, tests[0], f"failure is declared when the permutation {'avoids' if neg else 'contains'} the patterns; for this check it is the opposite ({what})")
+        return
+    # a failure always ends in `return False`: directly, or by being collected and reported after the level
+    collected: Optional[str] = None
+
+    def ends_false(stmts: List[ast.stmt]) -> bool:
+        nonlocal collected
+        for st in stmts:
+            if isinstance(st, ast.Return):
+                v = st.value.elts[0] if isinstance(st.value, ast.Tuple) else st.value
+                return isinstance(v, ast.Constant) and v.value is False
+            if isinstance(st, ast.If):
+                if not (ends_false(st.body) and ends_false(st.orelse)):
+                    return False
+                return True
+            if isinstance(st, ast.Expr) and isinstance(st.value, ast.Call) and isinstance(st.value.func, ast.Attribute) and st.value.func.attr == "append" \
+                    and [unparse(a) for a in st.value.args] == [e] and isinstance(st.value.func.value, ast.Name):
+                collected = st.value.func.value.id
+                return True
+        return False
+
+    if not ends_false(tests[0].body) or tests[0].orelse:
+        ctx.violation("C17-A2", f, tests[0], "a failing permutation does not lead to a negative verdict on every path")
+        return
+    if collected is not None:
+        pos = lp.body.index(inner[0])
+        rep = [st for st in lp.body[pos + 1:] if isinstance(st, ast.If)]
+        good = False
+        for st in rep:
+            conj = [unparse(c) for c in (st.test.values if isinstance(st.test, ast.BoolOp) and isinstance(st.test.op, ast.And) else [st.test])]
+            if collected in conj and set(conj) <= {collected, f"{table}[{n}]"} and any(isinstance(x, ast.Return) and unparse(x.value).startswith("(False") or isinstance(x, ast.Return) and unparse(x.value).startswith("False") for x in st.body):
+                good = True
+        inits = [st for st in lp.body[:pos] if isinstance(st, ast.Assign) and unparse(st.targets[0]) == collected and unparse(st.value) in ("[]", "list()")]
+        if not good or not inits:
+            ctx.violation("C17-A2", f, inner[0], f"failures collected in `{collected}` are not turned into a negative verdict after the level")
+            return
+    ctx.ok("C17-A2", f.where, f"bounded universal search: for n in 0..{bound}, every element of {table}[n]: {what}; any failure => (False, witnesses), success only after the loop", lp, f)
+
+
+# ------------------------------------------------------------------ A1: what auto_bisc returns is what it validated
+
+
+class VState:
+    """facts: set of (kind, var) validated on the current path; pend: var -> (kind, checked var) for an unexamined verdict."""
+
+    def __init__(self, facts=frozenset(), pend=None):
+        self.facts = frozenset(facts)
+        self.pend = dict(pend or {})
+
+    def copy(self) -> "VState":
+        return VState(self.facts, self.pend)
+
+    @staticmethod
+    def join(states: List["VState"]) -> Optional["VState"]:
+        states = [s for s in states if s is not None]
+        if not states:
+            return None
+        facts = frozenset.intersection(*[s.facts for s in states])
+        pend = {k: v for k, v in states[0].pend.items() if all(s.pend.get(k) == v for s in states[1:])}
+        return VState(facts, pend)
+
+
+class ValidatedReturn:
+    CHECKS = {"patterns_suffice_for_bad": "bad", "patterns_suffice_for_good": "good"}
+
+    def __init__(self, ctx: Ctx, f: FuncInfo, bound: str):
+        self.ctx, self.f, self.bound = ctx, f, bound
+        self.returns: List[Tuple[ast.Return, VState]] = []
+        self.calls: List[Tuple[ast.Call, str]] = []
+
+    # -- expressions / assignments
+    def assign(self, st: ast.stmt, s: VState) -> None:
+        tgts: List[ast.AST] = []
+        value = None
+        if isinstance(st, ast.Assign):
+            tgts, value = st.targets, st.value
+        elif isinstance(st, (ast.AugAssign, ast.AnnAssign)):
+            tgts, value = [st.target], st.value
+        names: List[str] = []
+        for t in tgts:
+            for x in ast.walk(t):
+                if isinstance(x, ast.Name):
+                    names.append(x.id)
+        for nm in names:
+            s.facts = frozenset(fk for fk in s.facts if fk[1] != nm)
+            s.pend = {k: v for k, v in s.pend.items() if k != nm and v[1] != nm}
+        if isinstance(value, ast.Call) and call_name(value) and call_name(value)[-1] in self.CHECKS and isinstance(st, ast.Assign) and len(st.targets) == 1:
+            kind = self.CHECKS[call_name(value)[-1]]
+            self.calls.append((value, kind))
+            tgt = st.targets[0]
+            verdict = tgt.elts[0] if isinstance(tgt, ast.Tuple) and tgt.elts else tgt
+            args = value.args
+            if isinstance(verdict, ast.Name) and len(args) >= 3 and isinstance(args[0], ast.Name) and unparse(args[1]) == self.bound:
+                s.pend[verdict.id] = (kind, args[0].id, unparse(args[2]))
+        elif isinstance(value, ast.Constant) and len(names) == 1 and isinstance(value.value, bool):
+            s.pend[names[0]] = ("const", value.value, None)
+
+    def refine(self, test: ast.AST, s: VState, truth: bool) -> Optional[VState]:
+        """state under the assumption that `test` evaluates to `truth` (None = infeasible)."""
+        if isinstance(test, ast.UnaryOp) and isinstance(test.op, ast.Not):
+            return self.refine(test.operand, s, not truth)
+        if isinstance(test, ast.Name) and test.id in s.pend:
+            kind, var, tbl = s.pend[test.id]
+            out = s.copy()
+            if kind == "const":
+                return out if var is truth else None
+            if truth:
+                out.facts = out.facts | {(kind, var, tbl)}
+            return out
+        return s.copy()
+
+    # -- statements; path-sensitive: a list of fall-through states, one per distinguishable path (no merging at joins,
+    #    otherwise the correlation between `val` and the validated variable is lost); loops restart from the empty state
+    def block(self, stmts: List[ast.stmt], states: List[VState], loop: Optional[Dict[str, List[VState]]]) -> List[VState]:
+        for st in stmts:
+            nxt: List[VState] = []
+            for s in states:
+                nxt.extend(self.stmt(st, s, loop))
+            uniq = {}
+            for s in nxt:
+                uniq[(s.facts, tuple(sorted(s.pend.items(), key=repr)))] = s
+            states = list(uniq.values())
+            if len(states) > 512:
+                raise AnalysisError(f"{self.f.where}: too many paths to analyse")
+            if not states:
+                return []
+        return states
+
+    def stmt(self, st: ast.stmt, s: VState, loop) -> List[VState]:
+        if isinstance(st, (ast.Assign, ast.AugAssign, ast.AnnAssign)):
+            s = s.copy()
+            self.assign(st, s)
+            return [s]
+        if isinstance(st, ast.Return):
+            self.returns.append((st, s.copy()))
+            return []
+        if isinstance(st, ast.Break):
+            if loop is not None:
+                loop["break"].append(s.copy())
+            return []
+        if isinstance(st, ast.Continue):
+            return []
+        if isinstance(st, ast.If):
+            a = self.refine(st.test, s, True)
+            b = self.refine(st.test, s, False)
+            out: List[VState] = []
+            if a is not None:
+                out.extend(self.block(st.body, [a], loop))
+            if b is not None:
+                out.extend(self.block(st.orelse, [b], loop))
+            return out
+        if isinstance(st, (ast.While, ast.For)):
+            # the loop head knows nothing (sound: no fact survives an iteration boundary)
+            inner = {"break": []}
+            self.block(st.body, [VState()], inner)
+            infinite = isinstance(st, ast.While) and isinstance(st.test, ast.Constant) and st.test.value is True
+            if infinite and not inner["break"]:
+                return []
+            return self.block(st.orelse, [VState()], loop) if st.orelse else [VState()]
+        if isinstance(st, ast.With):
+            return self.block(st.body, [s], loop)
+        if isinstance(st, ast.Try):
+            raise AnalysisError(f"{self.f.where}: try statement in the driver not analysed")
+        if isinstance(st, ast.Raise):
+            return []
+        if isinstance(st, (ast.Expr, ast.Pass, ast.Assert, ast.Import, ast.ImportFrom, ast.Delete, ast.Global, ast.Nonlocal, ast.FunctionDef)):
+            return [s]
+        raise AnalysisError(f"{self.f.where}: statement {type(st).__name__} not analysed")
+
+
+def rule_a1(ctx: Ctx) -> None:
+    mod = ctx.repo.module("permuta.bisc.bisc")
+    f = mod.functions.get("auto_bisc")
+    if f is None:
+        raise AnalysisError("auto_bisc vanished")
+    # the sanity bound: a local that starts at a constant >= 8 and is only ever raised
+    cands = [st for st in f.body if isinstance(st, ast.Assign) and isinstance(st.value, ast.Constant) and isinstance(st.value.value, int) and len(st.targets) == 1 and isinstance(st.targets[0], ast.Name)]
+    calls = [n for n in walk_no_nested(f.node) if isinstance(n, ast.Call) and call_name(n) and call_name(n)[-1] in ValidatedReturn.CHECKS]
+    if not calls:
+        ctx.violation("C17-A1", f, f.node, "the automatic driver never validates a description against the property")
+        return
+    bounds = {unparse(c.args[1]) for c in calls if len(c.args) >= 3}
+    if len(bounds) != 1:
+        raise AnalysisError(f"{f.where}: sanity checks use different bounds {sorted(bounds)}")
+    bound = bounds.pop()
+    init = [st for st in cands if st.targets[0].id == bound]
+    if len(init) != 1:
+        raise AnalysisError(f"{f.where}: initial value of the sanity bound `{bound}` not found")
+    if init[0].value.value < 8:
+        ctx.violation("C17-A1", f, init[0], f"the sanity bound starts at {init[0].value.value}; descriptions must be validated on every permutation up to length 8")
+        return
+    for node in walk_no_nested(f.node):
+        if isinstance(node, (ast.Assign, ast.AugAssign)) and node is not init[0]:
+            tg = node.targets if isinstance(node, ast.Assign) else [node.target]
+            if any(isinstance(t, ast.Name) and t.id == bound for t in tg):
+                # accepted idiom: `if L < e: L = e`
+                ok = False
+                for par in walk_no_nested(f.node):
+                    if isinstance(par, ast.If) and node in par.body and isinstance(node, ast.Assign) and unparse(par.test) in (f"{bound} < {unparse(node.value)}", f"{unparse(node.value)} > {bound}"):
+                        ok = True
+                if not ok:
+                    ctx.violation("C17-A1", f, node, f"the sanity bound `{bound}` is reassigned in a way that can lower it below 8")
+                    return
+    ctx.ok("C17-A1", f.where, f"sanity bound `{bound}` starts at {init[0].value.value} and is only ever raised", init[0], f)
+    # the tables: good permutations feed bisc(), the bad ones are the other table
+    learn = [n for n in walk_no_nested(f.node) if isinstance(n, ast.Call) and call_name(n) == ("bisc",)]
+    if len(learn) != 1 or not learn[0].args:
+        raise AnalysisError(f"{f.where}: learning call not recognised")
+    good_tbl = unparse(learn[0].args[0])
+    vr = ValidatedReturn(ctx, f, bound)
+    vr.block(f.body, [VState()], None)
+    described = [(r, s) for r, s in vr.returns if r.value is not None and not (isinstance(r.value, ast.Constant) and r.value.value is None)]
+    if not described:
+        raise AnalysisError(f"{f.where}: no return of a description found")
+    for r, s in described:
+        if not isinstance(r.value, ast.Name):
+            raise AnalysisError(f"{f.where}: returns `{unparse(r.value)}`, not a variable")
+        x = r.value.id
+        have = {(k, tbl) for (k, v, tbl) in s.facts if v == x}
+        goods = [tbl for k, tbl in have if k == "good"]
+        bads = [tbl for k, tbl in have if k == "bad"]
+        missing = []
+        if not goods:
+            missing.append("patterns_suffice_for_good")
+        if not bads:
+            missing.append("patterns_suffice_for_bad")
+        if missing:
+            others = sorted({f"{k}:{v}" for (k, v, _t) in s.facts})
+            ctx.violation("C17-A1", f, r, f"`return {x}`: on a path reaching it, `{x}` itself was not validated by {' / '.join(missing)} up to `{bound}` after its last assignment (validated on that path: {others or 'nothing'}); the returned description need not match the property up to length 8")
+            continue
+        if goods != [good_tbl] or bads == [good_tbl]:
+            ctx.violation("C17-A1", f, r, f"`{x}` is validated against the wrong table (good: {goods}, bad: {bads}; the good permutations are `{good_tbl}`)")
+            continue
+        ctx.ok("C17-A1", f.where, f"`return {x}` is reached only after patterns_suffice_for_bad({x}, {bound}, {bads[0]}) and patterns_suffice_for_good({x}, {bound}, {goods[0]}) both succeeded on that very value", r, f)
+
+
+# ------------------------------------------------------------------ U1: the clean-up tests every bad permutation it is given
+
+
+def rule_u1(ctx: Ctx) -> None:
+    mod = ctx.repo.module("permuta.bisc.bisc_subfunctions")
+    f = mod.functions.get("clean_up")
+    r = mod.functions.get("run_clean_up")
+    if f is None or r is None:
+        raise AnalysisError("clean_up / run_clean_up vanished")
+    if len(f.params) < 4:
+        raise AnalysisError(f"{f.where}: signature not recognised")
+    tbl, lo, hi = f.params[1], f.params[2], f.params[3]
+    loops = []
+    for node in walk_no_nested(f.node):
+        if isinstance(node, ast.For) and isinstance(node.iter, ast.Call) and call_name(node.iter) == ("range",) and isinstance(node.target, ast.Name):
+            inner = [st for st in node.body if isinstance(st, ast.For) and isinstance(st.iter, ast.Subscript) and unparse(st.iter).startswith(f"{tbl}[")]
+            if inner:
+                loops.append((node, inner))
+    if len(loops) != 1 or len(loops[0][1]) != 1:
+        raise AnalysisError(f"{f.where}: loop over the bad permutations by length not recognised")
+    lp, (inner,) = loops[0]
+    L = lp.target.id
+    args = lp.iter.args
+    if len(args) != 2:
+        raise AnalysisError(f"{f.where}: `{unparse(lp.iter)}` not recognised")
+    d0, d1 = lin_diff(args[0], {lo: 1}), lin_diff(args[1], {hi: 1, "": 1})
+    if d0 is None or d1 is None:
+        raise AnalysisError(f"{f.where}: bounds of `{unparse(lp.iter)}` are not affine in {lo}/{hi}")
+    if d0 > 0 or d1 < 0:
+        ctx.violation("C17-U1", f, lp, f"candidate bases are tested on lengths `{unparse(lp.iter)}` only; the bad permutations of every length {lo}..{hi} (inclusive) must be tested, so a returned basis can be avoided by a bad permutation of length {hi if d1 < 0 else lo}")
+        return
+    if unparse(inner.iter) != f"{tbl}[{L}]":
+        ctx.violation("C17-U1", f, inner, f"only `{unparse(inner.iter)}` of the bad permutations of length {L} is tested")
+        return
+    ctx.ok("C17-U1", f.where, f"every bad permutation of every length {lo}..{hi} is tested (`{unparse(lp.iter)}`, `{unparse(inner.iter)}`)", lp, f)
+    perm = unparse(inner.target)
+    # the avoidance table has the polarity of perm.avoids
+    pol = 0
+    for node in ast.walk(inner):
+        if isinstance(node, ast.If) and isinstance(node.test, ast.Call) and isinstance(node.test.func, ast.Attribute) and node.test.func.attr in ("avoids", "contains") and unparse(node.test.func.value) == perm:
+            want_body = node.test.func.attr == "avoids"
+            sb = [st for st in node.body if isinstance(st, ast.Assign) and isinstance(st.targets[0], ast.Subscript) and isinstance(st.value, ast.Constant)]
+            so = [st for st in node.orelse if isinstance(st, ast.Assign) and isinstance(st.targets[0], ast.Subscript) and isinstance(st.value, ast.Constant)]
+            if len(sb) == 1 and len(so) == 1 and unparse(sb[0].targets[0]) == unparse(so[0].targets[0]):
+                pol += 1
+                if sb[0].value.value is not want_body or so[0].value.value is want_body:
+                    ctx.violation("C17-U1", f, node, f"the table `{unparse(sb[0].targets[0].value)}` (does the permutation avoid the pattern?) is filled with the opposite truth value")
+                    return
+                avoid_tbl = unparse(sb[0].targets[0].value)
+                key = unparse(sb[0].targets[0].slice)
+                # the pattern tested is the one registered under the same key
+                srcs = [st for st in ast.walk(inner) if isinstance(st, ast.Assign) and isinstance(st.value, ast.Subscript) and unparse(st.value.slice) == key]
+                if not srcs:
+                    raise AnalysisError(f"{f.where}: pattern looked up for key {key} not found")
+    if pol != 1:
+        raise AnalysisError(f"{f.where}: avoidance table not recognised")
+    ctx.ok("C17-U1", f.where, f"{avoid_tbl}[k] is True exactly when the permutation avoids pattern k", inner, f)
+    # a refuted monitor is removed
+    rets = [st for st in f.body if isinstance(st, ast.Return)]
+    if not rets or not isinstance(rets[-1].value, ast.Tuple) or not isinstance(rets[-1].value.elts[0], ast.ListComp):
+        raise AnalysisError(f"{f.where}: final result not recognised")
+    mon_var = unparse(rets[-1].value.elts[0].generators[0].iter)
+    found = 0
+    for node in ast.walk(inner):
+        if isinstance(node, ast.For):
+            for st in node.body:
+                if isinstance(st, ast.If) and isinstance(st.test, ast.Call) and call_name(st.test) == ("all",) and avoid_tbl in unparse(st.test):
+                    found += 1
+                    m = unparse(node.target)
+                    removed = False
+                    for b in st.body:
+                        if isinstance(b, ast.Expr) and unparse(b) == f"{mon_var}.remove({m})":
+                            removed = True
+                            break
+                        if any(isinstance(x, (ast.Continue, ast.Break)) for x in ast.walk(b)) and not removed:
+                            break
+                    if not removed:
+                        ctx.violation("C17-U1", f, st, f"a candidate basis all of whose patterns are avoided by the bad permutation is not removed from `{mon_var}` (on every path): it can be returned although a tested bad permutation avoids it")
+                        return
+                    ge = st.test.args[0]
+                    if not (isinstance(ge, ast.GeneratorExp) and unparse(ge.elt) == f"{avoid_tbl}[{unparse(ge.generators[0].target)}]"):
+                        raise AnalysisError(f"{f.where}: refutation test `{unparse(st.test)[:80]}` not recognised")
+    if found != 1:
+        raise AnalysisError(f"{f.where}: refutation test of a candidate basis not recognised")
+    ctx.ok("C17-U1", f.where, f"a candidate basis whose (applicable) patterns are all avoided by the permutation is removed from `{mon_var}` before anything else", inner, f)
+    # run_clean_up passes its bound through
+    calls = [n for n in walk_no_nested(r.node) if isinstance(n, ast.Call) and call_name(n) == ("clean_up",)]
+    if len(calls) != 1:
+        raise AnalysisError(f"{r.where}: call of clean_up not recognised")
+    c = calls[0]
+    amap = {f.params[i]: unparse(a) for i, a in enumerate(c.args)}
+    amap.update({k.arg: unparse(k.value) for k in c.keywords if k.arg})
+    bm = r.params[2] if len(r.params) > 2 else None
+    if amap.get(tbl) != r.params[1] or amap.get(hi) != bm:
+        ctx.violation("C17-U1", r, c, f"run_clean_up passes {tbl}={amap.get(tbl)}, {hi}={amap.get(hi)}; expected its own arguments {r.params[1]} and {bm}")
+        return
+    d = lin_diff(ast.parse(amap.get(lo, "None"), mode="eval").body, {"": 0})
+    ctx.ok("C17-U1", r.where, f"run_clean_up(SG, {r.params[1]}, {bm}) -> clean_up(..., {tbl}={amap.get(tbl)}, {lo}={amap.get(lo)}, {hi}={amap.get(hi)})", c, r)
+    _ = d
+
+
+_OLD_RUN2 = run
+
+
+def run(ctx: Ctx) -> None:  # noqa: F811
+    _OLD_RUN2(ctx)
+    ctx.run(rule_a1, ctx)
+    ctx.run(rule_a2, ctx)
+    ctx.run(rule_u1, ctx)
+
+
+FLOORS.update({"C17-A1": 2, "C17-A2": 2, "C17-U1": 4})
+
+EXPLANATION = EXPLANATION.replace("NOT decided: everything else of the property (soundness up to n, completeness up to m, irredundancy, clean-up, equivalence of the input forms, auto_bisc up to length 8)",
+    "Also decided, as necessary conditions: auto_bisc returns only a value that passed both sanity checks up to a bound >= 8 on that very path (A1, path-sensitive typestate), the two sanity checks are bounded universal searches over all lengths 0..L and all elements (A2), the clean-up tests every bad permutation of every length it is given, records avoidance with the right polarity and removes refuted candidates (U1). NOT decided: soundness up to n, completeness up to m and irredundancy of the learned set")
